@@ -72,12 +72,23 @@ def to_units(data, B, cache):
     return out
 
 
+ROT = [0]
+
+
+def fatal(code, text):
+    """a fatal socket error in one of the shapes the operating system, the ssl module or a wrapper may give it: with error number
+    and text, as a subclass, with a text only, with nothing at all"""
+    ROT[0] += 1
+    return [OSError(code, text), ConnectionResetError(code, text) if code == errno.ECONNRESET else BrokenPipeError(code, text),
+            OSError(), OSError(text), OSError(code, text), ConnectionAbortedError()][ROT[0] % 6]
+
+
 ERR = {
     "eintr": lambda: OSError(errno.EINTR, "interrupted"),
     "eagain": lambda: OSError(errno.EAGAIN, "try again"),
     "ewouldblock": lambda: OSError(errno.EWOULDBLOCK, "would block"),
-    "reset": lambda: OSError(errno.ECONNRESET, "reset by peer"),
-    "pipe": lambda: OSError(errno.EPIPE, "broken pipe"),
+    "reset": lambda: fatal(errno.ECONNRESET, "reset by peer"),
+    "pipe": lambda: fatal(errno.EPIPE, "broken pipe"),
     "timeout": lambda: socket.timeout("timed out"),
 }
 
